@@ -47,8 +47,9 @@ type RTCase struct {
 	Entries []Entry  `json:"entries"`
 	Targets []Target `json:"targets,omitempty"` // drawn targets, in addition to the derived ones
 	Reuse   bool     `json:"reuse,omitempty"`   // one iterator for all seeks instead of a fresh one per seek
+	Inter   int      `json:"inter,omitempty"`   // > 0: clause (e), a second iterator and a Get every Inter entries of a full walk
 	// Clauses, if non-empty, restricts the case to the named oracle clauses
-	// (forward | seeklast | seek | get). Generated cases leave it empty; it
+	// (forward | seeklast | seek | get | interleaved). Generated cases leave it empty; it
 	// lets a regression replay show the one signature it was saved for.
 	Clauses []string `json:"clauses,omitempty"`
 }
@@ -277,6 +278,9 @@ func propRoundTrip(t *rapid.T) {
 		}
 		c.Targets = genTargets(t, len(c.Entries), nt)
 		c.Reuse = rapid.Bool().Draw(t, "reuse")
+		if rapid.IntRange(0, 2).Draw(t, "interleave") == 0 {
+			c.Inter = rapid.SampledFrom([]int{1, 2, 5, 17, 100}).Draw(t, "inter")
+		}
 		vs, info := checkRoundTrip(&c)
 		classes := append([]string{"roundtrip"}, info.classes...)
 		nontrivial := info.multi && info.ntTargets > 0
@@ -285,6 +289,9 @@ func propRoundTrip(t *rapid.T) {
 		}
 		if c.Reuse {
 			classes = append(classes, "iterator_reused_across_seeks")
+		}
+		if c.Inter > 0 {
+			classes = append(classes, "two_iterators_and_gets_interleaved")
 		}
 		ev.R().Count("seek_targets", info.targets)
 		ev.R().Count("seek_targets_nontrivial", info.ntTargets)
